@@ -29,7 +29,7 @@ ASSUMPTIONS = ['a constant all-ones source is not a legal random stream (stdlib 
 REAL = ['smartquery.functions (_rand, _shuffle)', 'stdlib random algorithms (randint, choice, shuffle, random)', 'evaluator']
 STUB = ['entropy source (scripted bits)']
 REACH_PROBES = ('extreme_prefix_consumed', 'rand01', 'rand_ab_literal', 'rand_ab_host_int', 'rand_ab_big', 'rand_ab_equal',
-                'rand_list', 'shuffle', 'shuffle_short_list', 'endpoint_coverage_checked', 'illegal_args')
+                'rand_list', 'shuffle', 'shuffle_short_list', 'endpoint_coverage_checked', 'illegal_args', 'standin_then_builtin', 'trailing_zero_bounds')
 SIM_TIME = 'logical: entropy draws; no clock in this property'
 
 BIG = [10 ** 30, 123456789012345678901234567890123, 10 ** 18, 2 ** 64, 99999999999999999999999999999]
@@ -69,7 +69,8 @@ def generate(seed, tier):
         op = {'op': 'draws', 'kind': kind, 'n': ro.choice([50, 100, 200, 500])}
         if kind == 'rand_ab':
             a, b, bk = _bounds(ro)
-            form = weighted(ro, [('literal', 4), ('host_int', 3), ('host_dec', 2), ('host_bool', 0.5 if bk == 'bool' else 0)])
+            form = weighted(ro, [('literal', 4), ('host_int', 3), ('host_dec', 2), ('host_bool', 0.5 if bk == 'bool' else 0),
+                                 ('literal_dot0', 1.5), ('host_dec_dot00', 1)])
             if form == 'literal' and (a < 0 or b < 0) and max(len(str(abs(a))), len(str(abs(b)))) > 27:
                 # unary minus on a literal rounds to 28 digits before rand sees it (arithmetic, not rand): hand such
                 # bounds over as host values instead
@@ -90,12 +91,20 @@ def generate(seed, tier):
                 pre = [pre[0]] * len(pre)
         op['entropy'] = {'seed': ro.randrange(2 ** 32), 'prefix': pre}
         ops.append(op)
-    return {'world': {'names': names}, 'ops': ops}
+    world = {'names': names}
+    if rc.random() < 0.35:
+        # the parser carries a parse cache and the host's FIRST use of each text ran with stand-ins bound as rand / shuffle
+        # (say, a test double); afterwards only plain data is bound: the library's own builtins must answer
+        world['cache'] = {'kind': 'dict'}
+        world['standins_first'] = True
+    return {'world': world, 'ops': ops}
 
 
 def execute(case, ctx):
     names = {k: lang.dec_value(v) for k, v in case['world']['names'].items()}
-    parser = boot.fresh_parser()
+    from ..seams import make_cache
+    parser = boot.fresh_parser(make_cache(case['world'].get('cache')))
+    seen_src = set()
     for step, op in enumerate(case['ops']):
         ctx.step = step
         ctx.op_kind(op['kind'])
@@ -109,8 +118,12 @@ def execute(case, ctx):
             a, b = int(op['a']), int(op['b'])
             if op['form'] == 'literal':
                 src = 'map(R, v => rand(%s, %s))' % (lang.render(_num_tree(a)), lang.render(_num_tree(b)))
+            elif op['form'] == 'literal_dot0' and a >= 0:
+                # integer-valued numbers written with trailing fractional zeros
+                src = 'map(R, v => rand(%d.0, %d.00))' % (a, b)
             else:
-                conv = {'host_int': int, 'host_dec': Decimal, 'host_bool': bool}[op['form']]
+                conv = {'host_int': int, 'host_dec': Decimal, 'host_bool': bool, 'literal_dot0': Decimal,
+                        'host_dec_dot00': lambda x: Decimal(str(x) + '.00')}[op['form']]
                 names['lo'], names['hi'] = conv(a), conv(b)
                 src = 'map(R, v => rand(lo, hi))'
         elif kind == 'rand_list':
@@ -121,6 +134,15 @@ def execute(case, ctx):
             src = {'a_gt_b': 'rand(5, 1)', 'fraction': 'rand(1.5, 2.5)', 'empty_list': 'rand(E)', 'three_args': 'rand(1, 2, 3)',
                    'string': 'rand("a", "b")'}[op['what']]
         arg_obj = names.get(op.get('list')) if op.get('list') in names else None
+        if case['world'].get('standins_first') and src not in seen_src:
+            seen_src.add(src)
+            n2 = dict(names)
+            n2['rand'] = lambda *a: 42
+            n2['shuffle'] = lambda x: x
+            n2['R'] = [0]
+            real_eval(parser, src, n2, budget=10 ** 5)
+            ctx.fault('host_standin_first')
+            ctx.probe('standin_then_builtin')
         before = canon.snap(arg_obj) if arg_obj is not None else None
         rout = real_eval(parser, src, names, budget=10 ** 6)
         ctx.event(step, kind, rout.kind, canon.digest(rout.brief()))
@@ -155,6 +177,8 @@ def execute(case, ctx):
                 ctx.probe('rand_ab_big')
             if a == b:
                 ctx.probe('rand_ab_equal')
+            if op['form'] in ('literal_dot0', 'host_dec_dot00'):
+                ctx.probe('trailing_zero_bounds')
             seen = set()
             for v in vals:
                 ok = isinstance(v, (Decimal, int)) and not isinstance(v, bool) and v == int(v) and a <= v <= b
